@@ -258,6 +258,9 @@ class Evaluator:
                         bt = arr_[1][i_]
                 if bt[0] == 'struct':
                     return bt[1].get(e['n'], ('unk', 'unset field ' + e['n']))
+                if bt[0] == 'sym' and self.is_data_member(bt[1].split('.')[0]):
+                    # a reference to a member sub-object (const T& r = helper_returning_a_member()): r.f is member.f
+                    return self.read_member(bt[1] + '.' + e['n'], P, e.get('l'))
                 return ('field', bt, e['n'])
             return self.read_member(path, P, e.get('l'))
         if k == 'this':
@@ -631,6 +634,20 @@ class Evaluator:
 
     def lload(self, lv, P):
         return self.agg_get(P.locals.get((lv[0], lv[1])), lv[2])
+
+    def is_data_member(self, name):
+        """name is a data member of the dynamic class (or one of its bases) with class type"""
+        if not self.dyn_class or self.prog is None:
+            return False
+        cache = self.__dict__.setdefault('_dm_cache', {})
+        if name not in cache:
+            ok = False
+            for r in self.prog.base_chain(self.dyn_class):
+                for fld in self.prog.records.get(r, {}).get('fields', []):
+                    if fld['n'] == name:
+                        ok = True
+            cache[name] = ok
+        return cache[name]
 
     def read_member(self, path, P, loc):
         if path in P.mem:
@@ -1609,7 +1626,7 @@ class Evaluator:
             return self.exec_block(s['s'], [P], fr)
         if getattr(self, 'unroll_paths', False):
             if k == 'decl' and len(s['vars']) == 1 and s['vars'][0].get('init') is not None and not s['vars'][0].get('static') and \
-                    not str(s['vars'][0].get('t', '')).endswith('&') and (self.top_call(s['vars'][0]['init']) is not None or True):
+                    (not str(s['vars'][0].get('t', '')).endswith('&') or (str(s['vars'][0].get('t', '')).startswith('const ') and self.top_call(s['vars'][0]['init']) is not None)):
                 v0 = s['vars'][0]
                 outs_ = []
                 for Q, val in self.eval_forking(v0['init'], P, fr):
